@@ -21,7 +21,7 @@ func init() {
 		Rule: "RateLimitedAttester.VerifyRequest on honest requests (made by pat-go's client and by the harness's own signer), every single-bit flip of every field of one honest request per client (request key, name key id, ciphertext, signature, blind, client key: exhaustive; every fourth flip also on a request object decoded from the wire and marshalled before the tampering, so a stale encoding cache cannot stand in for the fields), signatures by unrelated keys, signatures of other requests, (r, N-s), r or s in {0, N}, wrong/shifted blinds, leading-zero blinds, wrong or malformed client and request keys. " +
 			"Oracle: accept iff crypto/ecdsa.Verify(request key, SHA-384(type||request_key||name_key_id||len16||ciphertext), r, s) and request_key == compress(hash_to_field-blind(client key, blind, 0x0003||\"ClientBlind\")) computed by the reference; on reject: non-nil error, zero Put calls and every cached state snapshot unchanged; on accept: state is registered for this client only and no other client's snapshot changes. " +
 			"distinct_nontrivial = distinct (case class, field, bit) keys",
-		Floors:      []string{"oversized_structures_never_accepted", "accept_agree_with_a_cache_that_keeps_nothing", "accept_agree", "reject_agree", "reject_bad_signature", "reject_key_mismatch", "reject_malformed_key", "bitflips", "tampered_after_marshal", "tampered_after_original_accepted", "state_unchanged_on_reject", "state_registered_on_accept", "stream_accept_agree", "stream_reject_agree", "double_faults", "long_encrypted_requests"},
+		Floors:      []string{"foreign_request_key_signed_by_own_blinded_key", "oversized_structures_never_accepted", "accept_agree_with_a_cache_that_keeps_nothing", "accept_agree", "reject_agree", "reject_bad_signature", "reject_key_mismatch", "reject_malformed_key", "bitflips", "tampered_after_marshal", "tampered_after_original_accepted", "state_unchanged_on_reject", "state_registered_on_accept", "stream_accept_agree", "stream_reject_agree", "double_faults", "long_encrypted_requests"},
 		Assumptions: []string{"request structs have the shapes the wire decoder produces (49/32/1..65535/96 bytes)", "crypto/ecdsa and crypto/elliptic of the Go standard library are the reference"},
 		Run:         runC06,
 	})
@@ -524,6 +524,16 @@ func runC06(c *core.Ctx) {
 			cs.req.RequestKey = clone(other.signer.RequestKeyEnc)
 			cs.req.Signature = other.signer.sign(r, t3SignedMessage(other.signer.RequestKeyEnc, h.nameKeyID, h.ct))
 			w.call(cs)
+			// request key replaced by ANOTHER point (another client's request key, the generator, the client's own unblinded
+			// key) and the whole request - that foreign key included - signed by this client's own blinded secret: the
+			// signature verifies under blind x client key, which is not the key the request carries
+			for k, foreign := range [][]byte{clone(other.signer.RequestKeyEnc), ref.ECCompress(curve, curve.Params().Gx, curve.Params().Gy), clone(h.signer.ClientKeyEnc), clone(other.signer.ClientKeyEnc)} {
+				cs = h.mk(fmt.Sprintf("foreign-request-key-signed-by-own-key#%d", k))
+				cs.req.RequestKey = foreign
+				cs.req.Signature = h.signer.sign(r, t3SignedMessage(foreign, h.nameKeyID, h.ct))
+				w.call(cs)
+				c.Class("foreign_request_key_signed_by_own_blinded_key")
+			}
 			// two things wrong at once: whatever order the checks run in, the request is refused and nothing is registered
 			{
 				badSig := func(cs *c06Case) { cs.req.Signature = clone(cs.req.Signature); cs.req.Signature[95] ^= 1 }
